@@ -152,6 +152,23 @@ def canon_result(result: Any, env: Env) -> dict:
     }
 
 
+# One runner object of each kind serves EVERY case of a check process that does not bring its own cache (a runner is meant to be
+# long-lived: whatever it keeps between runs — executors, limiters, memo tables — must not leak from one graph or event loop into
+# the next). VERIF_FRESH_RUNNERS=1 restores a fresh runner per run.
+_SHARED: dict[str, Any] = {}
+
+
+def _runner(kind: str, cache: Any = None) -> Any:
+    import os
+
+    cls = SyncRunner if kind == "sync" else AsyncRunner
+    if cache is not None or os.environ.get("VERIF_FRESH_RUNNERS") == "1":
+        return cls(cache=cache) if cache is not None else cls()
+    if kind not in _SHARED:
+        _SHARED[kind] = cls()
+    return _SHARED[kind]
+
+
 def run_case(
     program: list[dict],
     root: int | None = None,
@@ -223,7 +240,7 @@ def run_case(
         warnings.simplefilter(warn_mode)
         try:
             if runner == "sync":
-                result = SyncRunner(cache=cache).run(g, vals, **kwargs)
+                result = _runner("sync", cache).run(g, vals, **kwargs)
             else:
                 if max_concurrency is not None:
                     kwargs["max_concurrency"] = max_concurrency
@@ -233,13 +250,13 @@ def run_case(
                     env.park = ctl.park
                     env.trace = ctl.trace
                     try:
-                        result = sched.run_controlled(lambda: _after(prelude, lambda: AsyncRunner(cache=cache).run(g, vals, **kwargs)), ctl)
+                        result = sched.run_controlled(lambda: _after(prelude, lambda: _runner("async", cache).run(g, vals, **kwargs)), ctl)
                     finally:
                         env.park = None
                         env.trace = None
                     coro = None
                 else:
-                    coro = _after(prelude, lambda: AsyncRunner(cache=cache).run(g, vals, **kwargs))
+                    coro = _after(prelude, lambda: _runner("async", cache).run(g, vals, **kwargs))
                 if coro is None:
                     pass
                 elif loop_factory is not None:
@@ -378,7 +395,7 @@ def map_case(
         warnings.simplefilter("always")
         try:
             if runner == "sync":
-                results = SyncRunner().map(g, vals, **kwargs)
+                results = _runner("sync").map(g, vals, **kwargs)
             else:
                 if max_concurrency is not None:
                     kwargs["max_concurrency"] = max_concurrency
@@ -388,12 +405,12 @@ def map_case(
                     env.park = ctl.park
                     env.trace = ctl.trace
                     try:
-                        results = sched.run_controlled(lambda: _after(prelude, lambda: AsyncRunner().map(g, vals, **kwargs)), ctl)
+                        results = sched.run_controlled(lambda: _after(prelude, lambda: _runner("async").map(g, vals, **kwargs)), ctl)
                     finally:
                         env.park = None
                         env.trace = None
                 else:
-                    results = asyncio.run(_after(prelude, lambda: AsyncRunner().map(g, vals, **kwargs)))
+                    results = asyncio.run(_after(prelude, lambda: _runner("async").map(g, vals, **kwargs)))
             obs["results"] = [canon_result(r, env) for r in results]
             obs["raised"] = None
         except Exception as e:
